@@ -141,12 +141,15 @@ Proof.
       destruct (take_waiter cfg false (length (peer_sent s)) f _) as [s2 rep]. destruct H as (Ha & Hb).
       pose proof (note_close_resp_same_ctl f (set_peer_sent (peer_sent s ++ [f]) s)) as H0.
       assert (I1 : c09_inv (set_peer_sent (peer_sent s ++ [f]) s)) by (apply (c09_frame s); auto).
-      destruct (rep && _); unfold reader_dies.
+      destruct (rep && _); [|eof_cases]; unfold reader_dies.
       * pose proof (c09_same_ctl _ _ (same_ctl_trans _ _ _ H0 Ha) I1) as I2.
         apply (c09_frame s2); auto. right. exists ERead. split; [reflexivity|intros [X|X]; discriminate].
       * pose proof (c09_same_ctl _ _ (same_ctl_trans _ _ _ H0 Hb) I1) as I2.
         apply (c09_frame (run_handler cfg (length (peer_sent s)) f HBAll rep s2)); auto.
         right. exists ERead. split; [reflexivity|intros [X|X]; discriminate].
+      * (* the truncated frame was dispatched and the EOF is tolerated after a CloseConnectionResponse *)
+        pose proof (c09_same_ctl _ _ (same_ctl_trans _ _ _ H0 Hb) I1) as I2.
+        apply (c09_frame (run_handler cfg (length (peer_sent s)) f HBAll rep s2)); auto.
   - (* Close *) unfold step_close in *. destruct (closed s); apply (c09_frame s); auto.
   - (* ConnStart *) unfold step_conn_start in *. destruct (phase s) eqn:Hp; try assumption.
     apply (c09_frame s); auto. right. st_simpl_goal. intros r e [X|X]; discriminate.
